@@ -30,7 +30,7 @@ EXPLANATION = (
     "is dominated by the specifier check that raises, the checked constant is the CiA 301 partner of the request, "
     "block sub-commands and multiplexers are checked where the response carries them; R4 the toggle comparison "
     "dominates the data return of a segment read; R6 no residue: SdoClient rebinds only `responses` outside __init__, "
-    "stream state lives in per-open() objects, both server initiate handlers reset toggle and buffer together; R8 structural assumptions shared by all properties: no class-level mutable object is mutated in place by instances, no method re-runs the constructor, logging statements cannot raise (typed eager formatting, divisions), no mutable default argument is kept or mutated, no new truth-value test of a None-able number."
+    "stream state lives in per-open() objects, both server initiate handlers reset toggle and buffer together; R8 structural assumptions shared by all properties: no class-level mutable object is mutated in place by instances, no method re-runs the constructor, logging statements cannot raise (typed eager formatting, divisions), no mutable default argument is kept or mutated, no new truth-value test of a None-able number, a look-up memory the pinned tree does not have is keyed by all its inputs (arithmetic keys folded over a grid of addresses) and, on the serving side, emptied somewhere."
     ' R1 also: outside the retry loop no handler around a request/response exchange completes normally without a recovery call; R6 skips counters / time stamps that nothing in the package reads.'
 )
 ASSUMPTIONS = [
